@@ -90,7 +90,7 @@ func c13(c *core.Ctx, r *core.Report) {
 	r.Assumptions = []string{"runner bodies are user code", "App.Run is called once per start by the user"}
 
 	// R2: the invoke site: exactly one, synchronous
-	sites := c.CallSites(func(com *ssa.CallCommon) bool { return core.IsInvoke(com, ro.RunnerRun) })
+	sites := notForwarders(c, c.CallSites(func(com *ssa.CallCommon) bool { return core.IsInvoke(com, ro.RunnerRun) }), c.Iface("definition", "ApplicationRunner"), "Run")
 	r.Count("runner_invoke_sites", len(sites))
 	if !r.Exactly("C13.R2", "invoke sites of ApplicationRunner.Run", len(sites), 1) {
 		return
